@@ -207,6 +207,14 @@ unsigned int irc_pton(irc_inaddr *addr, unsigned int *bits, const char *input, i
                 if (cpos < 8)
                     return 0;
                 cpos = ii;
+                /* A "::" after seven parts stands for the eighth.  Do
+                 * not let the empty part between the colons use up the
+                 * last slot, or the loop ends before it sees a "/nn"
+                 * or the end of the text (and never sets *bits).
+                 */
+                if ((ii == 7) && (input[pos + 1] != ':')
+                    && !ct_isxdigit(input[pos + 1]))
+                    part_start = input + ++pos;
             }
             break;
         case '.': {
